@@ -536,6 +536,8 @@ class Exec:
     def binop(self, op, l, r, st, line):
         if is_opaque(l) or is_opaque(r):
             return ("opaque", "expr")
+        if isinstance(l, Obj) and isinstance(r, Obj) and l.cls == "datetime" and r.cls == "datetime" and isinstance(op, ast.Sub):
+            return Obj("timedelta", {})
         if isinstance(l, (Mat, MatLazy)) and not isinstance(r, (Mat, MatLazy, Seq)) and isinstance(op, (ast.Add, ast.Sub)):
             c_ = toint(r)
             f_ = (lambda x: x + c_) if isinstance(op, ast.Add) else (lambda x: x - c_)
@@ -564,6 +566,8 @@ class Exec:
         if isinstance(op, ast.Div):
             # true division yields a float: only its comparisons with 0 are modelled (ratio sign), DESIGN section 2
             self.may_raise(st, "ZeroDivisionError", b == 0, f"division:{self.ordinal('div')}", line)
+            if self.c.get("opaque_floats"):
+                return self.opaque_float()
             return FloatV(("ratio", a, b))
         if isinstance(op, ast.Pow):
             lb, le = lit(a), lit(b)
@@ -574,7 +578,21 @@ class Exec:
             return specz3.ipow(a, b)
         raise Unsupported(f"binary operator {type(op).__name__}")
 
+    def opaque_float(self):
+        return FloatV(fresh("float", z3.RealSort()))
+
     def float_binop(self, op, l, r, st, line):
+        if self.c.get("opaque_floats"):
+            # floats whose VALUE is irrelevant to the contract (progress display): every arithmetic result is some float; what is tracked is the one way float
+            # arithmetic raises - division by an integer or float that is zero.  (Overflow to inf / nan is not modelled: a listed assumption of such contracts.)
+            if isinstance(op, (ast.Div, ast.FloorDiv, ast.Mod)):
+                if isinstance(r, FloatV):
+                    self.prove(st, f"float-divisor-nonzero:{self.ordinal('fdiv')}", z3.BoolVal(False), line)      # an unknown float divisor cannot be shown non-zero
+                else:
+                    self.may_raise(st, "ZeroDivisionError", toint(r) == 0, f"division:{self.ordinal('div')}", line)
+            elif not isinstance(op, (ast.Add, ast.Sub, ast.Mult)):
+                raise Unsupported("float operator")
+            return self.opaque_float()
         if isinstance(op, ast.Div) and isinstance(l, FloatV) and isinstance(r, FloatV) and getattr(l, "tag", (None,))[0] == "log" \
                 and getattr(r, "tag", (None,))[0] == "log":
             from pyvc import library
@@ -944,6 +962,30 @@ class Exec:
                                   "(exceptions they could raise are not covered); a test on them is treated as non-deterministic")
             return [Outcome("normal", st)]
         tail = self.c.get("opaque_tail", ())
+        if tail and isinstance(s, ast.AugAssign) and isinstance(s.target, ast.Name) and s.target.id in tail:
+            # `name += <expression>` on a display-only variable: as below, the variable becomes opaque when the statement is outside the modelled subset.
+            # Here the expression may read other variables (it only reads them); calls in it must be pure library calls.
+            calls_ = {x.func.id for x in ast.walk(s.value) if isinstance(x, ast.Call) and isinstance(x.func, ast.Name)}
+            methods_ = {x.func.attr for x in ast.walk(s.value) if isinstance(x, ast.Call) and isinstance(x.func, ast.Attribute)}
+            if calls_ <= self.PURE_LIBRARY and methods_ <= {"replace", "upper", "lower", "format", "join"}:
+                if is_opaque(st.env.get(s.target.id)):
+                    self.skipped_opaque = getattr(self, "skipped_opaque", 0) + 1
+                    return [Outcome("normal", st)]
+                t = st.clone()
+                keep = list(self.pending)
+                n_res = len(self.results)
+                try:
+                    outs = self.st_AugAssign(s, t)
+                    self.flush_defer(t)
+                    return outs + self.drain()
+                except Unsupported:
+                    self.pending = keep
+                    del self.results[n_res:]
+                    self.trusted_used.add(f"statement at line {s.lineno} of {self.qualname} (`{s.target.id} += ...`, display text outside the modelled subset) is skipped: "
+                                          "exceptions it could raise are not covered")
+                    st.env[s.target.id] = ("opaque", s.target.id)
+                    self.skipped_opaque = getattr(self, "skipped_opaque", 0) + 1
+                    return [Outcome("normal", st)]
         if tail and isinstance(s, ast.Assign) and len(s.targets) == 1 and isinstance(s.targets[0], ast.Name) and s.targets[0].id in tail:
             # a statement `name = <expression over the listed names and pure library calls only>` outside the modelled subset: `name` becomes
             # opaque instead of the unit being undecided.  Sound for obligations that do not mention the name: such a statement reads and writes
